@@ -124,7 +124,12 @@ def _base(rng, kind, dim, T, X, mode):
 def _history(rng, case, n_trig, max_draws):
     """0..max_draws draws between consecutive trigger calls"""
     ops, i = [], 0
-    for _ in range(n_trig):
+    # (a second solve on the returned generator: `init_rar` again and the iteration number restarts)
+    reinit_at = rng.randint(case["start"] + 1, max(case["start"] + 1, n_trig - 2)) if (n_trig >= case["start"] + 3 and rng.random() < 0.5) else None
+    for k in range(n_trig):
+        if k == reinit_at:
+            ops.append(["reinit"])
+            i = 0
         for _ in range(rng.randint(0, max_draws)):
             ops.append(["draw"])
         ops.append(["trigger", i, rarlib.core.qstr(Fraction(rng.randint(-12, 12), 4))])
@@ -306,6 +311,8 @@ def tags(case, obs):
     if case["kind"] == "nonstatio":
         out.append("nt_start==n_start" if case["ntStart"] == case["nStart"] else "nt_start!=n_start")
         out.append("selT==selX" if case["selT"] == case["selX"] else "selT!=selX")
+    if case["mode"] == "trigger" and any(op[0] == "reinit" for op in case["ops"]):
+        out.append("second_init_rar(resumed run)")
     if case["mode"] == "trigger":
         out.append(f"reshuffles={sum(1 for e in obs['events'] if e['ev'] == 'draw' and (e.get('resetT') or e.get('resetX')))}")
     return out
